@@ -103,7 +103,31 @@ class _Tap(logging.Handler):
         )
 
 
+SELFCHECK = {"left": 0, "done": 0}
+
+
 def run_cli(args: list[str], cwd: str, env: dict | None = None) -> Result:
+    """Mode P with the mode self-check: the first SELFCHECK['left'] calls that report violations
+    are repeated in a real subprocess (mode S) and must agree (DESIGN.md 2.2)."""
+    res = _run_cli_p(args, cwd, env)
+    if SELFCHECK["left"] > 0 and res.exit == 1 and "--format" in args and "json" in args:
+        SELFCHECK["left"] -= 1
+        sub = run_cli_sub(args, cwd, env)
+        same = sub.exit == res.exit
+        if same:
+            try:
+                key = lambda v: json.dumps(v, sort_keys=True)  # noqa: E731
+                same = sorted(map(key, sub.violations)) == sorted(map(key, res.violations))
+            except Exception:
+                same = False
+        if not same:
+            raise HarnessError(f"mode self-check failed for {args} in {cwd}: in-process exit {res.exit} vs subprocess exit {sub.exit}\n"
+                               f"P stdout: {res.stdout[:500]}\nS stdout: {sub.stdout[:500]}\nS stderr: {sub.stderr[-500:]}")
+        SELFCHECK["done"] += 1
+    return res
+
+
+def _run_cli_p(args: list[str], cwd: str, env: dict | None = None) -> Result:
     """Mode P: in-process click invocation that behaves like a fresh process."""
     init()
     from click.testing import CliRunner
